@@ -177,7 +177,13 @@ def execute(h, param, prefix=(), expect=None, jump=False, order="rr"):
         except sched.Abort:
             raise
         except BaseException as e:
-            herr.append("".join(traceback.format_exception(type(e), e, e.__traceback__)))
+            tb = e.__traceback__
+            through_lib = False
+            while tb is not None:
+                if tb.tb_frame.f_code.co_filename.startswith(seams.REPO + "/"):
+                    through_lib = True
+                tb = tb.tb_next
+            herr.append(("".join(traceback.format_exception(type(e), e, e.__traceback__)), through_lib, type(e).__name__))
             e = None
             raise
 
@@ -186,18 +192,30 @@ def execute(h, param, prefix=(), expect=None, jump=False, order="rr"):
         s.run(main)
     finally:
         pass
+    escaped = None
     if herr and s.end_reason != "divergence":
-        # an exception escaping the harness body (not Abort) is a harness bug unless the
-        # harness declared it expects library exceptions and catches them itself
-        raise sched.CheckerError("harness %s raised:\n%s" % (h.name, herr[0]))
+        text, through_lib, etype = herr[0]
+        if not through_lib:
+            # no library frame on the stack: a bug of the harness itself
+            raise sched.CheckerError("harness %s raised:\n%s" % (h.name, text))
+        # an exception raised inside the library came out of a public call the harness did not
+        # expect to raise: that is a verdict about the library, not a checker failure
+        escaped = (etype, text)
     x = Exec(h, param, s)
     x.jump = jump
+    if escaped is not None:
+        x.violations.append(("library-exception-escaped-to-caller", dict(exc=escaped[0]), escaped[1][-700:]))
+        return _finish(x, s)
     if h.oracle is not None:
         try:
             h.oracle(x)
         except Exception as e:
             raise sched.CheckerError("oracle of %s raised:\n%s" % (
                 h.name, "".join(traceback.format_exception(type(e), e, e.__traceback__))))
+    return _finish(x, s)
+
+
+def _finish(x, s):
     s.threads = []
     s = None
     global _nexec
